@@ -35,14 +35,20 @@ TraceLog == ndJsonDeserialize(IOEnv.TRACE_FILE)
 VARIABLES l
 
 \* ---- clamp
+\* With a witness record tsw (shared-BEP histories) the transition-state value is not taken from
+\* the reaction but rebuilt from the species level: H_r + slope * D + intercept for H, and the same
+\* minus T S_r = H_r - G_r for G (tsw.hr = H_r; tsw.gr = the reactants' value of the quantity q).
 ClampClauses(e) ==
-   LET init == IF e.dir = "fwd" THEN e.r ELSE e.p
+   LET wit == "tsw" \in DOMAIN e
+       w1 == IF wit THEN Mul(e.tsw.slope, e.tsw.D) ELSE Zero
+       tsv == IF wit THEN Add(Add(w1, e.tsw.icpt), e.tsw.gr) ELSE e.ts
+       init == IF e.dir = "fwd" THEN e.r ELSE e.p
        fin == IF e.dir = "fwd" THEN e.p ELSE e.r
        delta == Sub(fin, init)
-       barrier == IF e.hasTS THEN Sub(e.ts, init) ELSE delta
+       barrier == IF e.hasTS THEN Sub(tsv, init) ELSE delta
        want == DMax(Zero, DMax(barrier, delta))
-       S == IF e.hasTS THEN {e.r, e.p, e.ts} ELSE {e.r, e.p}
-       ok == CloseIn(e.val, want, S, 7)
+       S == (IF e.hasTS THEN {e.r, e.p, tsv} ELSE {e.r, e.p}) \cup (IF wit THEN {w1, e.tsw.icpt, e.tsw.gr} ELSE {})
+       ok == CloseIn(e.val, want, S, IF wit THEN 6 ELSE 7)
        name == IF e.q = "H" THEN "ClampH" ELSE "ClampG"
    IN IF ok THEN {} ELSE {name} \cup (IF Lt(e.val, want) THEN {"NotBelowMinimum"} ELSE {})
 
